@@ -27,6 +27,9 @@
 //              fresh recording numberer; the line gets a fourth section  # T <world>  (N = calls of the second numberer)
 //     nobar=1  no MPI_Barrier between the two syncs (default: barrier).  Without it a fast rank's message of the second round can be
 //              taken by a slower rank's MPI_Probe(MPI_ANY_SOURCE) of the first round (arrival-order processing)
+//     cm=w0,w1,...  the case runs on a communicator made by MPI_Comm_split of MPI_COMM_WORLD in which communicator rank i is
+//              WORLD rank w_i (P distinct world ranks: a subset, reversed, rotated ...); every rank number in the case line
+//              and in the dumps is a COMMUNICATOR rank; the other world ranks idle.  Default: world ranks 0..P-1 in order.
 // Output: ONE line per case, printed by rank 0:
 //   B <world> # D <world> # S <world>
 //   world  = rank dumps joined by " / ";  rank dump = "I g.a.l.p ... R q:g.la.ra.k,... q:... Y s N g,g,.."
@@ -80,6 +83,7 @@ struct Quad { int g, a, pub; long l; };
 struct Case { int P, fixed, num; char del; unsigned long long seed; std::vector<std::vector<Quad> > I; std::vector<std::vector<int> > D;
               std::vector<std::pair<int,int> > forget;
               int nb = 0, self = 0, ign = 0, gt = 0, twice = 0, nobar = 0;
+              std::vector<int> cm;
               std::vector<std::vector<int> > hints;
               struct Grow { int p, g, a; long l; std::vector<std::pair<int,int> > to; };
               std::vector<Grow> grow; };
@@ -118,6 +122,7 @@ static bool parse(const std::string& line, Case& c)
     else if (k == "gt") c.gt = std::atoi(v.c_str());
     else if (k == "twice") c.twice = std::atoi(v.c_str());
     else if (k == "nobar") c.nobar = std::atoi(v.c_str());
+    else if (k == "cm") { std::istringstream ms(v); std::string q; while (std::getline(ms, q, ',')) if (!q.empty()) c.cm.push_back(std::atoi(q.c_str())); }
     else if (k[0] == 'h') {
       int p = std::atoi(k.c_str() + 1); if (p < 0 || p >= c.P) return false;
       std::istringstream hs(v); std::string q;
@@ -385,12 +390,39 @@ int main(int argc, char** argv)
     bool ok = parse(line, c) && c.P >= 1 && c.P <= NP;
     if (!ok) { if (!wrank) { std::cout << "BADCASE" << std::endl; } continue; }
     std::string out;
-    if (wrank < c.P) {
-      alarm(tmo);
-      out = run_case(c, comms[c.P], wrank);
-      alarm(0);
+    if (c.cm.empty()) {
+      if (wrank < c.P) {
+        alarm(tmo);
+        out = run_case(c, comms[c.P], wrank);
+        alarm(0);
+      }
+      MPI_Barrier(MPI_COMM_WORLD);
+    } else {
+      // a communicator whose rank numbering differs from MPI_COMM_WORLD
+      bool good = (int) c.cm.size() == c.P;
+      std::set<int> seen;
+      for (int w : c.cm) { if (w < 0 || w >= NP || seen.count(w)) good = false; seen.insert(w); }
+      if (!good) { if (!wrank) { std::cout << "BADCASE" << std::endl; } continue; }
+      int key = -1;
+      for (int i = 0; i < c.P; ++i) if (c.cm[i] == wrank) key = i;
+      MPI_Comm sub;
+      MPI_Comm_split(MPI_COMM_WORLD, key >= 0 ? 0 : MPI_UNDEFINED, key, &sub);
+      if (key >= 0) {
+        int crank; MPI_Comm_rank(sub, &crank);
+        alarm(tmo);
+        out = run_case(c, sub, crank);
+        alarm(0);
+        MPI_Comm_free(&sub);
+      }
+      MPI_Barrier(MPI_COMM_WORLD);
+      // the line sits on communicator rank 0 = world rank cm[0]; world rank 0 prints
+      int root = c.cm[0];
+      if (root != 0) {
+        if (wrank == root) { int len = (int) out.size(); PMPI_Send(&len, 1, MPI_INT, 0, 777, MPI_COMM_WORLD); PMPI_Send(const_cast<char*>(out.data()), len, MPI_CHAR, 0, 778, MPI_COMM_WORLD); }
+        if (wrank == 0) { int len = 0; PMPI_Recv(&len, 1, MPI_INT, root, 777, MPI_COMM_WORLD, MPI_STATUS_IGNORE); std::vector<char> b(len + 1);
+                          PMPI_Recv(b.data(), len, MPI_CHAR, root, 778, MPI_COMM_WORLD, MPI_STATUS_IGNORE); out.assign(b.data(), len); }
+      }
     }
-    MPI_Barrier(MPI_COMM_WORLD);
     if (!wrank) { std::cout << out << std::endl; }
   }
   MPI_Finalize();
